@@ -96,7 +96,14 @@ type Lemma struct {
 	Induct string
 }
 
+type Macro struct {
+	Name   string
+	Params []string
+	Body   *CExpr
+}
+
 type ContractSet struct {
+	Macros map[string]*Macro
 	Funcs  map[string]*Contract
 	Order  []string
 	Lemmas []*Lemma
@@ -173,6 +180,32 @@ func ParseContractFile(path string, cs *ContractSet) error {
 			}
 			cs.Funcs[name] = cur
 			cs.Order = append(cs.Order, name)
+		case "define":
+			// define name(p1, p2) = expr
+			eq := strings.Index(rest, "=")
+			if eq < 0 {
+				return fail("define needs '='")
+			}
+			head := strings.TrimSpace(rest[:eq])
+			lp := strings.Index(head, "(")
+			if lp < 0 || !strings.HasSuffix(head, ")") {
+				return fail("define name(params) = expr")
+			}
+			m := &Macro{Name: strings.TrimSpace(head[:lp])}
+			for _, pn := range strings.Split(head[lp+1:len(head)-1], ",") {
+				if pn = strings.TrimSpace(pn); pn != "" {
+					m.Params = append(m.Params, pn)
+				}
+			}
+			e, err := ParseCExpr(strings.TrimSpace(rest[eq+1:]))
+			if err != nil {
+				return fail(err.Error())
+			}
+			m.Body = e
+			if cs.Macros == nil {
+				cs.Macros = map[string]*Macro{}
+			}
+			cs.Macros[m.Name] = m
 		case "lemma":
 			curLemma = &Lemma{Name: strings.TrimSpace(rest)}
 			cs.Lemmas = append(cs.Lemmas, curLemma)
